@@ -265,11 +265,13 @@ func (s *SoftwrapScanner) Scan() bool {
 		if wordLen > s.width {
 			s.rest = []vaxis.Cell{}
 			// Append characters to token until we reach the end
-			for _, char := range word {
-				if w >= s.width {
+			for i, char := range word {
+				// The line is full, or it already has content and
+				// this grapheme would overflow it
+				if w >= s.width || (w > 0 && w+uint16(char.Width) > s.width) {
 					// Append the rest to rest
-					s.rest = append(s.rest, char)
-					continue
+					s.rest = append(s.rest, word[i:]...)
+					break
 				}
 				s.token = append(s.token, char)
 				w += uint16(char.Width)
